@@ -208,6 +208,7 @@ func (h *harnessDef) config(tier string, known map[string]bool) engine.Config {
 	c.MaxPaths = atoi(h.Opts["maxpaths"], 0)
 	c.MaxDecs = atoi(h.Opts["maxdecs"], 0)
 	c.TimeoutMs = atoi(h.Opts["timeout_ms"], 0)
+	c.SolverName = h.Opts["solver"]
 	c.MaxWallS = atoi(h.Opts["maxwall"], 0)
 	c.Thorough = tier == "thorough"
 	if tier == "thorough" {
